@@ -57,6 +57,7 @@ import PdshVerif.Dsh.SignalsAbort
 import PdshVerif.Dsh.ExitFan
 import PdshVerif.Dsh.FanExec
 import PdshVerif.Opt.Command
+import PdshVerif.Dsh.ExitKillLemmas
 
 namespace PdshVerif.C08
 open PdshVerif PdshVerif.Dsh PdshVerif.Dsh.Exit
@@ -636,5 +637,192 @@ theorem option_refusal_exit1 {ofx : Opt.Fixes} {d : Opt.Defaults} {p : Opt.Pers}
   rcases Opt.effective_exit_code h with h1 | ⟨_, t, hm, ha⟩
   · rw [h1]; rfl
   · exact absurd ha (hinfo t hm)
+
+/-! ## -k as a transition system (Dsh/ExitKill.lean): where the process ends, in every schedule -/
+
+section KillSchedules
+open Kill
+
+/-- -K, EVERY SCHEDULE (any variant of the code): take any schedule of a -k run — any interleaving of the workers, any
+    cutting of every target's output into poll-loop iterations, any number of targets in flight — that ends the
+    process.  If some target's command failed (a positive code through either channel, an unreachable host, a
+    time-out), the exit status is 1 and the process was NOT ended by dsh() returning: it was ended by a worker's -k
+    test.  (The executions of the real dispatcher are a subset of the schedules quantified over here.) -/
+theorem kill_any_failure_every_schedule (fx : Fixes) (S : Bool) (ts : List Target) (evs : List Ev)
+    {c : Nat} {how : How} {ps : List Phase} {sg : List Nat}
+    (hx : exec fx ⟨S, true⟩ ts (init ts) evs = some (.exited c how ps sg))
+    (hfail : ∃ t ∈ ts, kFails (hostOfT fx t) = true) : c = 1 ∧ how ≠ .returned := by
+  have hi := sinv_reach fx ⟨S, true⟩ ts evs _ hx
+  obtain ⟨hinv, hhow⟩ := hi
+  cases how with
+  | midstream i => exact ⟨hhow.1, by simp⟩
+  | teardown i => exact ⟨hhow.1, by simp⟩
+  | returned =>
+    exfalso
+    obtain ⟨hall, _, _⟩ := hhow
+    obtain ⟨e1, e2⟩ := hostsOf_all_finished fx ⟨S, true⟩ ts ps hinv hall
+    have hnone := e2 rfl
+    rw [e1, List.any_eq_false] at hnone
+    obtain ⟨t, ht, hk⟩ := hfail
+    exact hnone (hostOfT fx t) (List.mem_map.mpr ⟨t, ht, rfl⟩) hk
+
+/-- THE FAILING HOST CANNOT COMPLETE SILENTLY: in whatever reachable state of a -k run the teardown of a target whose
+    final status fails is executed, that step ends the process with status 1, right there: the schedules "in which
+    the failing host completes" all end in `exited 1 (teardown i)` at that step (or ended before it) -/
+theorem kill_failing_host_completes (fx : Fixes) (S : Bool) (ts : List Target) (evs : List Ev) (ps : List Phase)
+    (i : Nat) (sc : Script) (hx : exec fx ⟨S, true⟩ ts (init ts) evs = some (.run ps))
+    (hi : ts[i]? = some (some sc)) (hk : kFails (hostOf fx sc) = true) (s' : St)
+    (hs : step fx ⟨S, true⟩ ts (.run ps) (.teardown i) = some s') :
+    s' = .exited 1 (.teardown i) ps (readingIdx ps) := by
+  have hinv : Inv fx ⟨S, true⟩ ts ps := sinv_reach fx ⟨S, true⟩ ts evs _ hx
+  simp only [step, hi] at hs
+  split at hs
+  · next st rc sc' h1 h2 =>
+    simp only [Option.some.injEq] at h2; subst h2
+    obtain ⟨hp, e1⟩ := getElem_of_getElem? h1
+    obtain ⟨ht, e2⟩ := getElem_of_getElem? hi
+    have hok := hinv.2 i hp ht
+    rw [e1, e2] at hok
+    have hok' : (⟨st, finalRc rc sc.rv⟩ : Host) = hostOf fx sc := hok
+    rw [hok', hk] at hs
+    simpa using hs.symm
+  · cases hs
+
+/-- THE EXIT STATUS DOES NOT DEPEND ON THE SCHEDULE, and it is `mainExit` (the function every other theorem of this
+    file is about, the one the driver runs): for every flag combination and every schedule that ends the process —
+    by a mid-stream death, by a teardown test, or by dsh() returning — the status is
+    `mainExit fx fl (.started (statuses of the targets))`, provided no target dies in mid-stream although its final
+    status is a success (`NoEarlyDeath`: true of every out-of-band target and of every target whose output carries
+    one marker line, see `noEarlyDeath_of_no_lines`, `noEarlyDeath_of_prefix_stable`; FALSE e.g. for an output with a
+    marker line > 128 followed by a marker line 0: `kill_early_death_witness`) -/
+theorem kill_exit_every_schedule (fx : Fixes) (fl : Flags) (ts : List Target) (evs : List Ev)
+    {c : Nat} {how : How} {ps : List Phase} {sg : List Nat}
+    (hx : exec fx fl ts (init ts) evs = some (.exited c how ps sg)) (hne : NoEarlyDeath fx ts) :
+    c = mainExit fx fl (.started (ts.map (hostOfT fx))) :=
+  exited_code fx fl ts c how ps sg (sinv_reach fx fl ts evs _ hx) hne
+
+/-- out-of-band status (`-R exec`): every schedule of every outcome vector ends with the status `mainExit` gives,
+    which the specification admits (composition with `exec_exit_admissible`) -/
+theorem kill_exec_every_schedule (fx : Fixes) (hd7 : fx.d7 = true) (hd8 : fx.d8 = true) (S k : Bool)
+    (outs : List Outcome) (hok : ∀ o ∈ outs, okOutcome o) (evs : List Ev)
+    {c : Nat} {how : How} {ps : List Phase} {sg : List Nat}
+    (hx : exec fx ⟨S, k⟩ (outs.map fun o => some (execScript fx o))
+      (init (outs.map fun o => some (execScript fx o))) evs = some (.exited c how ps sg)) :
+    ExitSpec.admissible S k false outs c = true := by
+  have hne : NoEarlyDeath fx (outs.map fun o => some (execScript fx o)) := by
+    apply noEarlyDeath_of_no_lines
+    intro sc hm
+    simp only [List.mem_map, Option.some.injEq] at hm
+    obtain ⟨o, _, rfl⟩ := hm
+    cases o <;> simp [linesOf, execScript, splitLines_nil]
+  have := kill_exit_every_schedule fx ⟨S, k⟩ _ evs hx hne
+  rw [this, List.map_map]
+  exact exec_exit_admissible fx hd7 hd8 S k outs hok
+
+/-- WHAT HAS BECOME OF THE SIBLINGS when a -k test ends the process (every reachable such state):
+    (1) every target is in exactly one phase (the record has one entry per target);
+    (2) SIGTERM is forwarded (`_fwd_signal`) to exactly the targets inside their poll loop — state DSH_READING: the
+        commands that are running — and to no other: not to targets still connecting, not to those whose loop has
+        ended, not to those never started; in a mid-stream death that includes the dying target itself, in a teardown
+        death it does not;
+    (3) a sibling that had completed has its full final status, and it had succeeded (else IT would have ended the run);
+    (4) nothing happens afterwards: a target that was not yet started (`new`) never runs its command. -/
+theorem kill_siblings (fx : Fixes) (fl : Flags) (ts : List Target) (evs : List Ev)
+    {c : Nat} {how : How} {ps : List Phase} {sg : List Nat}
+    (hx : exec fx fl ts (init ts) evs = some (.exited c how ps sg)) (hhow : how ≠ .returned) :
+    ps.length = ts.length ∧
+    (∀ j : Nat, j ∈ sg ↔ ∃ seen rc, ps[j]? = some (Phase.reading seen rc)) ∧
+    (∀ (j : Nat) (h : Host), ps[j]? = some (Phase.finished h) → ts[j]?.map (hostOfT fx) = some h ∧ kFails h = false) ∧
+    (∀ e, step fx fl ts (.exited c how ps sg) e = none) ∧
+    (∀ i, how = .midstream i → i ∈ sg) ∧ (∀ i, how = .teardown i → i ∉ sg) := by
+  have hi := sinv_reach fx fl ts evs _ hx
+  obtain ⟨hinv, hh⟩ := hi
+  have hk : fl.k = true ∧ sg = readingIdx ps := by
+    cases how with
+    | midstream i => exact ⟨hh.2.1, hh.2.2.1⟩
+    | teardown i => exact ⟨hh.2.1, hh.2.2.1⟩
+    | returned => exact absurd rfl hhow
+  refine ⟨hinv.1, fun j => by rw [hk.2]; exact mem_readingIdx ps j, ?_, fun e => by cases e <;> rfl, ?_, ?_⟩
+  · intro j h hj
+    obtain ⟨hp, e1⟩ := getElem_of_getElem? hj
+    have ht : j < ts.length := by rw [← hinv.1]; exact hp
+    have hok := hinv.2 j hp ht
+    rw [e1] at hok
+    rw [List.getElem?_eq_getElem ht]
+    cases htj : ts[j] with
+    | none =>
+      rw [htj] at hok
+      have : h = ⟨.canceled, 0⟩ := by simpa [Ok] using hok
+      subst this
+      simp [hostOfT, kFails]
+    | some sc =>
+      rw [htj] at hok
+      obtain ⟨e2, e3⟩ : h = hostOf fx sc ∧ (fl.k = true → kFails h = false) := hok
+      exact ⟨by simp [hostOfT, e2], e3 hk.1⟩
+  · intro i hm
+    subst hm
+    obtain ⟨_, _, _, seen, rc, sc, h1, _, _⟩ := hh
+    rw [hk.2, mem_readingIdx]
+    exact ⟨seen, rc, h1⟩
+  · intro i hm
+    subst hm
+    obtain ⟨_, _, _, st, rc, sc, h1, _, _⟩ := hh
+    rw [hk.2, mem_readingIdx]
+    rintro ⟨seen, rc', h2⟩
+    rw [h1] at h2
+    cases h2
+
+/-- ... and when dsh() returns, every target has completed, none was signalled, and under -k all of them succeeded -/
+theorem kill_returned_all_done (fx : Fixes) (fl : Flags) (ts : List Target) (evs : List Ev)
+    {c : Nat} {ps : List Phase} {sg : List Nat}
+    (hx : exec fx fl ts (init ts) evs = some (.exited c .returned ps sg)) :
+    sg = [] ∧ hostsOf ps = ts.map (hostOfT fx) ∧ (fl.k = true → (ts.map (hostOfT fx)).any kFails = false) := by
+  obtain ⟨hinv, hall, _, hsg⟩ := sinv_reach fx fl ts evs _ hx
+  obtain ⟨e1, e2⟩ := hostsOf_all_finished fx fl ts ps hinv hall
+  exact ⟨hsg, e1, fun hk => by rw [← e1]; exact e2 hk⟩
+
+/-- four targets: 0 prints the marker line of a command killed by signal 9 and keeps its stream open, 1 is a healthy
+    command that is still running, 2 is a healthy one that has completed, 3 ends with code 3 (out of band) -/
+def killWitness : List Target :=
+  [some { connectOk := true, stdout := "XXRETCODE:137\n".toList, timedOut := false, rv := 0 },
+   some { connectOk := true, stdout := "hello\n".toList, timedOut := false, rv := 0 },
+   some { connectOk := true, stdout := [], timedOut := false, rv := 0 },
+   some { connectOk := true, stdout := [], timedOut := false, rv := 3 }]
+
+/-- EVERY SIBLING FATE IS REACHABLE, and both -k tests are: a schedule in which target 0 dies in mid-stream while
+    sibling 1 is in its poll loop (signalled, with the dying target itself), sibling 2 has completed and sibling 3 was
+    never started; a schedule of the same run in which target 3 (exit code 3 through the teardown) ends it while
+    0 has not been polled yet; and, without -k, the sequential schedule in which dsh() returns -/
+theorem kill_witnesses :
+    exec Fixes.all ⟨false, true⟩ killWitness (init killWitness)
+      [.start 2, .connected 2, .leave 2, .teardown 2, .start 0, .start 1, .connected 1, .connected 0, .poll 1 1, .poll 0 1] =
+      some (.exited 1 (.midstream 0)
+        [.reading 1 137, .reading 1 0, .finished ⟨.done, 0⟩, .new] [0, 1]) ∧
+    exec Fixes.all ⟨false, true⟩ killWitness (init killWitness)
+      [.start 0, .connected 0, .start 3, .connected 3, .leave 3, .teardown 3] =
+      some (.exited 1 (.teardown 3) [.reading 0 0, .new, .new, .atEnd .done 0] [0]) ∧
+    exec Fixes.all ⟨false, false⟩ killWitness (init killWitness) (sequential killWitness) =
+      some (.exited 0 .returned
+        [.finished ⟨.done, 137⟩, .finished ⟨.done, 0⟩, .finished ⟨.done, 0⟩, .finished ⟨.done, 3⟩] []) := by
+  decide
+
+/-- OUTSIDE the domain (two marker lines): whether the process ends in mid-stream depends on how the output is cut
+    into poll-loop iterations — both lines in one iteration: the later marker has reset `th->rc` before
+    `_die_if_signalled` looks, the run ends 0; one line per iteration: it dies with 1.  (`NoEarlyDeath` excludes
+    exactly this; the generator of checks/c08.py keeps clear of it, as the remote shell prints ONE marker line.) -/
+theorem kill_early_death_witness :
+    exec Fixes.all ⟨false, true⟩
+      [some { connectOk := true, stdout := "XXRETCODE:137\nXXRETCODE:0\n".toList, timedOut := false, rv := 0 }]
+      (init [some { connectOk := true, stdout := "XXRETCODE:137\nXXRETCODE:0\n".toList, timedOut := false, rv := 0 }])
+      [.start 0, .connected 0, .poll 0 2, .leave 0, .teardown 0, .ret] =
+      some (.exited 0 .returned [.finished ⟨.done, 0⟩] []) ∧
+    exec Fixes.all ⟨false, true⟩
+      [some { connectOk := true, stdout := "XXRETCODE:137\nXXRETCODE:0\n".toList, timedOut := false, rv := 0 }]
+      (init [some { connectOk := true, stdout := "XXRETCODE:137\nXXRETCODE:0\n".toList, timedOut := false, rv := 0 }])
+      [.start 0, .connected 0, .poll 0 1] =
+      some (.exited 1 (.midstream 0) [.reading 1 137] [0]) := by
+  decide
+
+end KillSchedules
 
 end PdshVerif.C08
